@@ -64,6 +64,8 @@ def run(chk, prog, tier):
     from valib import scan as SC
     SC.column_independence_rule(chk, prog, roles)
     SC.noswallow_rule(chk, prog, roles)
+    SC.comment_cannot_fail_rule(chk, prog, roles)
+    SC.room_only_when_emitting_rule(chk, prog, roles)
     chk.explanation = ("Decides the case clause: every character stored into the filtered line buffer is tolower() of the "
                        "input and nothing downstream of the filter ever sees the raw text, so no later stage can depend on letter "
                        "case. Also decides (COLUMN) that no condition of the filter uses the raw-text cursor as a value "
